@@ -693,6 +693,7 @@ def do_c13():
     samples.append({"helix": par, "pivot": p0})
 
 # ------------------------------------------------------------------------------------------------ C07
+_SEEN = {}
 def layouts(pars_list):
     """yield (name, array of parameter rows with some nesting, flat order index)"""
     n = len(pars_list)
@@ -703,11 +704,12 @@ def layouts(pars_list):
     counts = [int(c) for c in counts]
     yield "ragged", ak.unflatten(ak.Array(a), counts), list(range(n))
     yield "ragged+empty", ak.unflatten(ak.Array(a), [0] + counts + [0]), list(range(n))
+    # a regular array with NO track per event (3 * 0 * helix): the number of events is part of the nesting (once per run)
+    if not _SEEN.get("regular-size0"):
+        _SEEN["regular-size0"] = True
+        yield "regular-size0", ak.to_regular(ak.unflatten(ak.Array(a[:0]), [0, 0, 0]), axis=1), []
     if n % 2 == 0 and n >= 2:
         yield "regular", ak.to_regular(ak.unflatten(ak.Array(a), [2] * (n // 2)), axis=1), list(range(n))
-        # a regular array with NO track per event (3 * 0 * helix): the number of events is part of the nesting
-        if n == 2:
-            yield "regular-size0", ak.to_regular(ak.unflatten(ak.Array(a[:0]), [0, 0, 0]), axis=1), []
         # the same regular nesting held by ONE n-dimensional NumPy buffer (ak.Array(np.ndarray), ak.from_numpy)
         yield "numpy-regular", ak.Array(a.reshape(n // 2, 2, 5)), list(range(n))
     if n >= 4:
